@@ -30,9 +30,12 @@ def pool_scenarios(tier, seed):
             for procs in (1, 4, 16):
                 for stop in (False, True):
                     out.append(dict(bound=b, queue=q, subs=6, tasks=40 if tier == "quick" else 120, stop=stop,
-                                    gomaxprocs=procs))
+                                    gomaxprocs=procs, io=False))
+                # the I/O task pool (taskpool.NewIO: the engine's default IOExecute) shares the protocol and must keep the bound
+                out.append(dict(bound=b, queue=q, subs=6, tasks=40 if tier == "quick" else 120, stop=False,
+                                gomaxprocs=procs, io=True))
     for i, s in enumerate(out):
-        s.update(id="pool-b%d-q%d-p%d%s#%d" % (s["bound"], s["queue"], s["gomaxprocs"], "-stop" if s["stop"] else "", i),
+        s.update(id="%s-b%d-q%d-p%d%s#%d" % ("iopool" if s["io"] else "pool", s["bound"], s["queue"], s["gomaxprocs"], "-stop" if s["stop"] else "", i),
                  seed=rnd.randrange(1 << 40), leg="real")
     return out
 
